@@ -284,8 +284,8 @@ def configs(tier: str, seed: int) -> List[Dict[str, Any]]:
                     + (f"/b{bound}" if bound is not None else ""), "backend": backend, "max_lags": max_lags,
                     "variant": variant, "bound": bound, "tier": tier, "seed": seed, "sample": sample,
                     "max_pauses": max_pauses, "env_commit": variant.endswith("+envcommit") or variant.endswith("+envgc") or bool(max_lags),
-                    # thorough: every configuration stops after 25 000 executions (reported as a cap in the evidence)
-                    "max_exec": 25000 if tier != "quick" else None})
+                    # thorough: every configuration stops after 12 000 executions (reported as a cap in the evidence)
+                    "max_exec": 12000 if tier != "quick" else None})
 
     for b in ("local", "s3"):
         add(b, "commit_old", sample=(b == "s3"))
